@@ -361,7 +361,7 @@ func main() {
 	r.Assume = append(r.Assume, "phase T: two genesis deputies, DeputyCount 2, every block confirmed by both deputies before the next is built (no forks; lagging confirms only in the small differential: histories of A and B with <= 1 non-empty block run again with the confirms of the two blocks before the reward block held back); burns do not occur in phase T's alphabet; WHEN a pending refund is paid and WHO receives a salary are not asserted (counted against the rule in term_refund_timing_differs / term_salary_receivers_differ)")
 	// two written-out histories of phase T among the samples
 	r.Sample(map[string]interface{}{"term_history": []string{"Ar", "xD0", "-", "xC1", "pD1alt", "tC1X,xC3", "xD1"}, "reads": "scenario Ar; block 7 = genesis deputy D0 unregisters (in office: refund deferred), 9 = elected candidate C1 unregisters in the interim, 10 = D1 changes its income address, 11 (reward block) = C1 pays 500 LEMO away and C3 unregisters, 12 = D1 unregisters (out of office: refunded at once)"})
-	r.Sample(map[string]interface{}{"term_history": []string{"B", "xC1", "-", "-", "s1=huge", "B:tVX,pC3alt", "-"}, "reads": "scenario B (second boundary); 15 = deputy C1 unregisters, 18 = term 1's reward set to 899,999,999 LEMO, 19 (reward block) = a box with a transfer, then the miner C3 changes its income address"})
+	r.Sample(map[string]interface{}{"term_history": []string{"B", "xC1", "-", "-", "s1=huge", "B:tVX,pC3alt", "-"}, "reads": "scenario B (second boundary); 15 = deputy C1 unregisters, 18 = an attempt to raise term 1's reward to 899,999,999 LEMO (refused: the sum of all settings would pass 900M; the call burns its gas limit), 19 (reward block) = a box with a transfer, then the miner C3 changes its income address"})
 	core.RunShards(r, core.Opt.Workers, nil, core.Opt.Budget+3*time.Minute, nil)
 	compressNotes(r)
 	termSelfCheck(r)
